@@ -367,15 +367,6 @@ Definition classes_of {A} (chain : list (handler A)) : list (list pyexc) := map 
 (** ** (b) Integer expressions *)
 Inductive binop := OAdd | OSub | OMul | OFloorDiv | OMod | OPow | OTrueDiv.
 
-Inductive iexpr :=
-| ILit (z : Z)         (* decimal literal, z >= 0 *)
-| IFloatLit            (* a float literal (1.5, 1e3): a value that is not an int *)
-| IName                (* an undefined name *)
-| INeg (e : iexpr)     (* -e *)
-| IPos (e : iexpr)     (* +e *)
-| IInv (e : iexpr)     (* ~e *)
-| IBin (op : binop) (a b : iexpr).
-
 (** Result of Python's evaluation.  [RNonInt]: the evaluation yields a value that is not an [int]
     (float, complex) or raises an exception of float arithmetic (ZeroDivisionError, OverflowError,
     TypeError - all subclasses of Exception); float arithmetic itself is not modelled. *)
@@ -383,6 +374,18 @@ Inductive ires :=
 | RInt (z : Z)
 | RExc (c : pyexc)
 | RNonInt.
+
+Inductive iexpr :=
+| IOracle (r : ires)   (* a text outside the modelled syntax (non-ASCII digit-like characters, calls,
+                          garbage ...): what Python's own [eval] does with it, tabulated from the
+                          running interpreter by the harness *)
+| ILit (z : Z)         (* decimal literal, z >= 0 *)
+| IFloatLit            (* a float literal (1.5, 1e3): a value that is not an int *)
+| IName                (* an undefined name *)
+| INeg (e : iexpr)     (* -e *)
+| IPos (e : iexpr)     (* +e *)
+| IInv (e : iexpr)     (* ~e *)
+| IBin (op : binop) (a b : iexpr).
 
 Local Open Scope Z_scope.
 
@@ -403,6 +406,7 @@ Definition int_binop (op : binop) (x y : Z) : ires :=
     the result is a non-int or an exception of class Exception ([RNonInt]). *)
 Fixpoint py_eval (e : iexpr) : ires :=
   match e with
+  | IOracle r => r
   | ILit z => RInt z
   | IFloatLit => RNonInt
   | IName => RExc ENameError
@@ -419,6 +423,15 @@ Fixpoint py_eval (e : iexpr) : ires :=
                   end
       | RNonInt => RNonInt
       end
+  end.
+
+(** The exception classes the oracle leaves of an expression can raise. *)
+Fixpoint oracle_excs (e : iexpr) : list pyexc :=
+  match e with
+  | IOracle (RExc c) => [c]
+  | INeg a | IPos a | IInv a => oracle_excs a
+  | IBin _ a b => oracle_excs a ++ oracle_excs b
+  | _ => []
   end.
 
 (** [python_evaluate]: the clauses after [eval]; [fixed = false] is the chain before commit 58541f0. *)
